@@ -969,6 +969,24 @@ class PyCdlib:
                     if rr and rr != ver:
                         raise pycdlibexception.PyCdlibInvalidISO('Inconsistent Rock Ridge versions on the ISO!')
 
+    def _read_at_most_iso(self, length, iso_size):
+        # type: (int, int) -> bytes
+        """
+        An internal method to read a structure whose length comes from the ISO
+        itself.  A length that the whole ISO cannot hold means a damaged ISO;
+        it is not passed on to the file object, which may well allocate a
+        buffer of that size before it reads.
+
+        Parameters:
+         length - The number of bytes to read at the current position.
+         iso_size - The size of the ISO in bytes.
+        Returns:
+         The bytes read.
+        """
+        if length > iso_size:
+            raise pycdlibexception.PyCdlibInvalidISO('A length recorded on the ISO is larger than the ISO itself')
+        return self._cdfp.read(length)
+
     def _get_iso_size(self):
         # type: () -> int
         """
@@ -1056,7 +1074,7 @@ class PyCdlib:
             length = dir_record.get_data_length()
             offset = 0
             last_record = None  # type: Optional[dr.DirectoryRecord]
-            data = cdfp.read(length)
+            data = self._read_at_most_iso(length, iso_file_length)
             while offset < length:
                 if offset > (len(data) - 1):
                     # The data we read off of the ISO was shorter than what we
@@ -1092,7 +1110,7 @@ class PyCdlib:
                     orig_pos = cdfp.tell()
                     self._seek_to_extent(ce_record.bl_cont_area)
                     cdfp.seek(ce_record.offset_cont_area, os.SEEK_CUR)
-                    con_block = cdfp.read(ce_record.len_cont_area)
+                    con_block = self._read_at_most_iso(ce_record.len_cont_area, iso_file_length)
                     if len(con_block) != ce_record.len_cont_area:
                         # The continuation area lies (partly) beyond the end
                         # of the file; what it held is lost.
@@ -1272,9 +1290,10 @@ class PyCdlib:
          A tuple consisting of the list of path table record entries and a
          dictionary of the extent locations to the path table record entries.
         """
+        iso_size = self._get_iso_size()
         self._seek_to_extent(extent)
         old = self._cdfp.tell()
-        data = self._cdfp.read(ptr_size)
+        data = self._read_at_most_iso(ptr_size, iso_size)
         offset = 0
         out = []
         extent_to_ptr = {}
@@ -2278,10 +2297,11 @@ class PyCdlib:
          Nothing.
         """
         part_start = self.udf_main_descs.partitions[0].part_start_location
+        iso_size = self._get_iso_size()
 
         abs_file_entry_extent = part_start + self.udf_file_set.root_dir_icb.log_block_num
         self._seek_to_extent(abs_file_entry_extent)
-        icbdata = self._cdfp.read(self.udf_file_set.root_dir_icb.extent_length)
+        icbdata = self._read_at_most_iso(self.udf_file_set.root_dir_icb.extent_length, iso_size)
         self.udf_root = udfmod.parse_file_entry(icbdata,
                                                 abs_file_entry_extent,
                                                 self.udf_file_set.root_dir_icb.log_block_num,
@@ -2304,7 +2324,7 @@ class PyCdlib:
                 abs_file_ident_extent = part_start + desc.log_block_num
                 self._seek_to_extent(abs_file_ident_extent)
                 self._cdfp.seek(desc.offset, 1)
-                data = self._cdfp.read(desc.extent_length)
+                data = self._read_at_most_iso(desc.extent_length, iso_size)
                 offset = 0
                 while offset < len(data):
                     current_extent = (abs_file_ident_extent * self.logical_block_size + offset) // self.logical_block_size
@@ -2322,7 +2342,7 @@ class PyCdlib:
 
                     abs_file_entry_extent = part_start + file_ident.icb.log_block_num
                     self._seek_to_extent(abs_file_entry_extent)
-                    icbdata = self._cdfp.read(file_ident.icb.extent_length)
+                    icbdata = self._read_at_most_iso(file_ident.icb.extent_length, iso_size)
                     next_entry = udfmod.parse_file_entry(icbdata,
                                                          abs_file_entry_extent,
                                                          file_ident.icb.log_block_num,
@@ -2441,7 +2461,7 @@ class PyCdlib:
                     # (A real file raises OSError for a negative offset.)
                     raise pycdlibexception.PyCdlibInvalidISO('The backup GPT partition array lies before the start of the ISO')
                 self._cdfp.seek(secondary_parts_offset)
-                tmp_isohybrid.parse_secondary_gpt_partitions(self._cdfp.read(tmp_isohybrid.secondary_gpt.header.num_parts * 128))
+                tmp_isohybrid.parse_secondary_gpt_partitions(self._read_at_most_iso(tmp_isohybrid.secondary_gpt.header.num_parts * 128, self._get_iso_size()))
 
             # We only save the object if it turns out to be a valid IsoHybrid.
             self.isohybrid_mbr = tmp_isohybrid
